@@ -3,11 +3,23 @@ import json, random, signal
 from fractions import Fraction
 
 from ..gen import points as G
-from .c11_translate import translate  # noqa: F401  (translated fragments: query write sets and single-form guards)
+from .c11_translate import translate as _translate_guards  # translated fragments: query write sets and single-form guards
+from ..gen import c11_source as _SRC                       # translated BODIES (round 4): Generated/C11Src.lean
+from ..gen import c12_source as _BOX                       # translated BODIES of aabb.py: Generated/C12Box.lean (shared with C12)
+
+_BOX_SITES = ("AABB.__init__", "AABB.dim", "AABB.mini", "AABB.maxi", "AABB.infinite", "AABB.distance")
+
+
+def translate():
+    """every site of the translators; a site that is not understood comes back ok=False (broken obligation).  Of aabb.py only
+    the methods KDTree uses count here (the others belong to property C12)."""
+    box = [s for s in _BOX.translate() if any(s["site"].startswith("aabb.py: " + m + " ") for m in _BOX_SITES) or "class AABB" in s["site"]]
+    return _translate_guards() + _SRC.translate() + box
+
 
 PID = "C11"
 TITLE = "k-d tree queries are exact and construction always terminates"
-LEAN_MODULES = ["Mouette.Props.C11", "Mouette.Props.C11F", "Mouette.Props.C11G"]
+LEAN_MODULES = ["Mouette.Props.C11", "Mouette.Props.C11F", "Mouette.Props.C11G", "Mouette.Props.C11S", "Mouette.Props.C11B"]
 REQUIRED_THEOREMS = ["build_terminates", "buildRoot_terminates", "build_partition", "buildRoot_partition", "build_boxes",
                      "buildRoot_boxes", "radius_exact", "knn_exact", "knn_distances_k_smallest", "kdtree_correct",
                      "buildOriginal_diverges", "knnOriginal_wrong",
@@ -16,7 +28,46 @@ REQUIRED_THEOREMS = ["build_terminates", "buildRoot_terminates", "build_partitio
                      "buildBFS_partition", "knnFlat_refines", "knnFlat_exact", "radiusFlat_refines", "radiusFlat_exact",
                      # bridges Generated (translated from the current kdtree.py) = model (Props/C11G.lean)
                      "gen_queries_read_only", "gen_radiusPrune", "gen_radiusKeep", "gen_trimGuard", "gen_heldGuard",
-                     "furthest_eq_gen", "gen_fallbackGuard"]
+                     "furthest_eq_gen", "gen_fallbackGuard",
+                     # round 4: the BODIES of kdtree.py translated on every run (Generated/C11Src.lean) = flat model; headline
+                     # theorems restated on the extracted definitions (Props/C11S.lean)
+                     "splitPoints_bridge", "splitPoints_ok", "newLeaf_bridge", "initBody_bridge", "init_bridge", "isLeaf_bridge",
+                     "trim_bridge", "trim_exits", "query_bridge", "queryRadius_bridge", "ctor_copies_points",
+                     "init_source_correct", "source_children_ordered", "query_source_exact", "query_radius_source_exact",
+                     # the box operations KDTree relies on, as extracted from aabb.py (Generated/C12Box.lean; Props/C11B.lean)
+                     "kd_box_ctor", "kd_box_infinite", "kd_box_bounds", "kd_box_distance", "kd_box_distance_le"]
+
+# Which function of the anchor files is tied to the model how (computed by hand from what the translators emit and what
+# the bridge theorems of Props/C11S.lean, Props/C11G.lean, Props/C12S.lean use).
+SOURCE_MAP = {
+    "mouette/spatial/kdtree.py::KDTree.__init__": "translated",          # C11S.init* = buildBFS (init_bridge)
+    "mouette/spatial/kdtree.py::KDTree._new_leaf": "translated",         # C11S.newLeaf (newLeaf_bridge)
+    "mouette/spatial/kdtree.py::KDTree._split_points": "translated",     # C11S.splitPoints = splitIdx (splitPoints_bridge)
+    "mouette/spatial/kdtree.py::KDTree.is_leaf": "translated",           # C11S.isLeaf (isLeaf_bridge)
+    "mouette/spatial/kdtree.py::KDTree.query": "translated",             # C11S.query = knnFlat (query_bridge)
+    "mouette/spatial/kdtree.py::KDTree.query_radius": "translated",      # C11S.queryRadius = radiusFlat (queryRadius_bridge)
+    "mouette/spatial/kdtree.py::KDTree.Leaf.size": "translated",         # C11S.leafSize (used by initBody_bridge)
+    "mouette/spatial/kdtree.py::KDTree._find_pivot": "modelled",         # a PARAMETER of the model (every function of the cell): theorems hold for every strategy / draw
+    "mouette/spatial/kdtree.py::KDTree.BuildStrategy.from_string": "out-of-scope: only selects which pivot function is used; the theorems hold for every pivot function",
+    "mouette/geometry/aabb.py::AABB.__init__": "translated",             # C12Box.ctor / ctorCopies (kd_box_ctor)
+    "mouette/geometry/aabb.py::AABB.infinite": "translated",             # C12Box.infinite (kd_box_infinite)
+    "mouette/geometry/aabb.py::AABB.distance": "translated",             # C12Box.distance = Box.dist2 (kd_box_distance)
+    "mouette/geometry/aabb.py::AABB.mini": "translated",                 # kd_box_bounds
+    "mouette/geometry/aabb.py::AABB.maxi": "translated",
+    "mouette/geometry/aabb.py::AABB.dim": "translated",                  # C12Box.dim (used by kd_box_distance)
+    "mouette/geometry/aabb.py::AABB.IncompatibleDimensionError.__init__": "out-of-scope: exception class",
+    "mouette/geometry/aabb.py::AABB.__repr__": "out-of-scope: printing",
+    "mouette/utils/priority_queue.py::PriorityItem.__lt__": "modelled",  # candidate list sorted by distance (Model/KDSource.lean: pqPush/pqPop)
+    "mouette/utils/priority_queue.py::PriorityQueue.__init__": "modelled",
+    "mouette/utils/priority_queue.py::PriorityQueue.empty": "modelled",
+    "mouette/utils/priority_queue.py::PriorityQueue.front": "modelled",
+    "mouette/utils/priority_queue.py::PriorityQueue.get": "modelled",
+    "mouette/utils/priority_queue.py::PriorityQueue.pop": "modelled",
+    "mouette/utils/priority_queue.py::PriorityQueue.push": "modelled",
+}
+for _f in ("unit_cube", "of_points", "of_mesh", "span", "center", "intersection", "__and__", "do_intersect", "union", "__or__",
+           "pad", "contains_point", "project", "is_empty"):
+    SOURCE_MAP["mouette/geometry/aabb.py::AABB." + _f] = "out-of-scope: not called by KDTree (covered by property C12)"
 TRUSTED = [
     "Lean 4.33.0 kernel; axioms ⊆ {propext, Classical.choice, Quot.sound}",
     "hand-written model Mouette/Model/KDTree.lean + AABB.lean tied to mouette/spatial/kdtree.py, geometry/aabb.py by the correspondence of this run "
@@ -26,6 +77,11 @@ TRUSTED = [
     "the pivot (`_find_pivot`, numpy.random.choice, numpy.median) is a parameter of the model: theorems hold for every pivot function",
     "floating point: inputs are small dyadic rationals, for which squared distances are exact in binary64 and sqrt preserves order and ties; rounding on other inputs is not modelled",
     "PriorityQueue/heapq abstracted to 'pop returns a candidate of maximum distance' (sorted list truncated to k)",
+    "round 4: the BODIES of KDTree.__init__, _new_leaf, _split_points, Leaf.size, is_leaf, query, query_radius (vlib/gen/c11_source.py -> Generated/C11Src.lean) and of "
+    "AABB.__init__/dim/mini/maxi/infinite/distance (vlib/gen/c12_source.py -> Generated/C12Box.lean) are re-extracted from the working tree on every run and PROVED equal to "
+    "the flat model / the box algebra (Props/C11S.lean, Props/C11B.lean); trusted there: the two translators and the vocabulary of Model/KDSource.lean, Model/BoxSource.lean "
+    "(numpy masks / argsort(kind='stable') / extract as list operations; deque as FIFO/LIFO list; distances compared on their squares; PriorityQueue.pop returns an entry "
+    "of minimal priority; _find_pivot an arbitrary function; the ghost heap-path id that keys it)",
 ]
 ASSUMPTIONS = ["agreement model/implementation is established on the cases explored in this run only",
                "k >= 1, max_leaf_size >= 1, radius >= 0, points form an (N,d) array with d >= 1"]
@@ -252,6 +308,31 @@ def _invariants(case, tree):
     return part, box, size
 
 
+def _box_witness(case, tree):
+    """a stored point that lies outside the box of its leaf AND that the queries at that very point lose; '' if none"""
+    import numpy as np
+    pts = [[Fraction(c) for c in p] for p in case["pts"]]
+    leaves, _ = _leaves_and_nodes(tree)
+    tried = 0
+    for lf in leaves:
+        for i in lf.points:
+            i = int(i)
+            if 0 <= i < len(pts) and not _inside_closed(lf.bb, pts[i]):
+                tried += 1
+                if tried > 8: return ""
+                q = np.array([float(c) for c in pts[i]])
+                try:
+                    rad = [int(j) for j in tree.query_radius(q, 0.0)]
+                    nn = [int(j) for j in tree.query(q, 1)]
+                except Exception as e:  # noqa
+                    return f"point {i}: a query at that point raised {type(e).__name__}"
+                if not any(pts[j] == pts[i] for j in rad if 0 <= j < len(pts)):
+                    return f"point {i} is outside the box of its leaf and query_radius(points[{i}], 0) returns {rad[:6]}"
+                if not (nn and 0 <= nn[0] < len(pts) and pts[nn[0]] == pts[i]):
+                    return f"point {i} is outside the box of its leaf and query(points[{i}], 1) returns {nn[:3]}"
+    return ""
+
+
 def _one_query(tree, qu, dim, effects, tag):
     """one k-NN + one radius query through the monitor: the query point object and the tree must be left as found"""
     qobj = _query_obj(qu, dim)
@@ -438,9 +519,13 @@ def oracle(case):
     if not part:
         out.append({"key": "C11/leaves/partition", "what": "the leaves do not store every input index exactly once", "detail": ""})
     if not box:
-        out.append({"key": "C11/leaves/box", "what": "a stored point lies outside the bounding box of its leaf", "detail": ""})
-    if not size:
-        out.append({"key": "C11/leaves/size", "what": "a leaf holds more than max_leaf_size points", "detail": ""})
+        # Round 4, soundness: the statement speaks of the ANSWERS, not of the stored boxes. A point outside the box of its leaf is
+        # reported only when a query witnesses it: the radius-0 query / the 1-NN query AT that point does not return a point at distance 0.
+        w = _box_witness(case, b["tree"])
+        if w:
+            out.append({"key": "C11/leaves/box", "what": "a stored point lies outside the bounding box of its leaf", "detail": w})
+    # (a leaf larger than max_leaf_size is not a clause of the statement: it is still compared with the model - `size=` of the
+    # observation - but it is no longer a finding of its own)
     answers = _queries(case, b)
     seen_eff = set()
     for key, detail in b["effects"]:
@@ -623,7 +708,15 @@ MANIFEST = {
                    "refine the recursive model (buildBFSRoot_refines: the tree read back from the flat list IS the recursive tree; buildBFSRoot_leaves; "
                    "knnFlat_refines; radiusFlat_refines), so termination, partition, boxes, k-NN and radius exactness hold for the code's shape "
                    "(buildBFS_partition, knnFlat_exact, radiusFlat_exact); the flat node list is compared with tree.nodes informationally."),
+    "level_round4": ("Round 4: the bodies of KDTree.__init__, _new_leaf, _split_points, Leaf.size, is_leaf, query, query_radius and of the AABB methods they use are "
+                     "translated from the working tree on every run (Generated/C11Src.lean, C12Box.lean) and PROVED equal to the flat model (init_bridge, query_bridge, "
+                     "queryRadius_bridge, splitPoints_bridge, kd_box_*); termination, partition, boxes, k-NN and radius exactness are restated on the extracted "
+                     "definitions (init_source_correct, query_source_exact, query_radius_source_exact). The split rule of the model now follows np.extract "
+                     "(order of the cell kept): the flat model's node list equals tree.nodes on every generated case."),
     "level_note": ("Trusted: Lean kernel + propext/Classical.choice/Quot.sound; the hand-written models (recursive + flat; checked against the code on the cases of each run only); floats not modelled (inputs are dyadic "
                    "rationals for which the code's comparisons are exact); heapq abstracted."),
     "technique": "Lean 4 invariant proofs by structural induction over an executable k-d tree model; differential correspondence + brute-force oracle",
 }
+
+# the round-4 paragraph belongs to the level text (tools/mkmanifest.py reads level_text / level_note / technique)
+MANIFEST["level_text"] = MANIFEST["level_text"] + " " + MANIFEST.pop("level_round4")
